@@ -169,7 +169,8 @@ def run(chk):
     chk.rule("R09-compare", "(comparison of a namespace's elements, rewrite of a reference inside those elements under another namespace's table) pairs: rewrite first", ncmp, floor=20)
 
     # references are resolved and compared through ItemList: its equality and its name index are part of this property's code
-    from . import c08, c13
+    from . import c08, c13, genrules
+    genrules.r_eq(chk, rule_complete="R09-eq", rule_layout=None)      # "identical" is decided with the generated ==: every data field takes part
     c08.r08_listeq(chk, prog, rule="R09-listeq")
     c13.shared(chk, "R09-list", "merge looks up and compares elements of both modules through ItemList")
     # control dependence of the rewrites
